@@ -23,7 +23,9 @@ RULE = ("operations: one SRP exchange each — telegram.VerifSRP (client randomn
         "0/8/16/32/40/100, Telegram's 2048-bit prime with g in 2..7, odd moduli of 2048/2047/2040/2033/1024/64 "
         "bits, toy and degenerate groups, client/server secrets and `random` lengths varied, rejection-sampled "
         "secrets giving 1-2 leading zero bytes in A, B, u, S; wrong passwords; srp_B in {0, p, p+1, p-1, 1, B+p, "
-        "247/248/255/257/300 bytes}; empty password; foreign algorithm object; c18.seq = several exchanges one after "
+        "247/248/255/257/300 bytes}; empty password; foreign algorithm object; long inputs (password, salt1, salt2 "
+        "each of 0, 1, around 56/64/128, 500, 1024, 1025, 4096, 65536 bytes alone and in combination: honest exchanges, "
+        "long passwords answered with one that differs in the last byte / by one byte of length, public entry point); c18.seq = several exchanges one after "
         "the other in one process, each judged on its own: a base (password, salt1, salt2) followed by the triples "
         "with the same concatenated bytes and the boundaries moved. Caller memory: the byte-string inputs of every "
         "exchange (salt1, salt2, p, srp_B, random) are placed, as a function of the operation line, in own exactly-sized "
